@@ -2,7 +2,7 @@
 
 Y1  total decision table of detect_schema over version triples
 Y2  1.18.0 variant marker separates the two 1.18.0 creators' DDL
-Y3  truth table of detect_is_database2 over the 8 presence combinations
+Y3  truth table of detect_is_database2 over the 12 presence combinations
 Y4  dispatch in load_database / create_database / database_exists
 """
 import re
@@ -303,8 +303,8 @@ def _layout(prog, chk, Y3):
     d = Sym('directory')
     for dir_exists in (False, True):
         for legacy in (False, True):
-            for db2 in (False, True):
-                def hook(ev, qn, args, env, node, stmt=False, _a=(dir_exists, legacy, db2)):
+            for db2, db2dir in ((False, False), (False, True), (True, True)):
+                def hook(ev, qn, args, env, node, stmt=False, _a=(dir_exists, legacy, db2, db2dir)):
                     if qn and _exist_func(prog, qn):
                         v = ev.ev(args[0], env)
                         if isinstance(v, tuple) and v and v[0] is d:
@@ -315,6 +315,8 @@ def _layout(prog, chk, Y3):
                                 return _a[0] and _a[1]
                             if rest == '/Database2/m.db':
                                 return _a[0] and _a[2]
+                            if rest in ('/Database2', '/Database2/'):
+                                return _a[0] and _a[3]
                         return UNKNOWN
                     return NotImplemented
                 ev = Evaluator(prog, f, hook)
@@ -331,7 +333,7 @@ def _layout(prog, chk, Y3):
                     want = {('throw', 'database_not_found')}
                 else:
                     want = {('return', db2)}
-                inst = 'dir=%s m.db=%s Database2/m.db=%s' % (dir_exists, legacy, db2)
+                inst = 'dir=%s m.db=%s Database2/=%s Database2/m.db=%s' % (dir_exists, legacy, db2dir, db2)
                 if res == want:
                     chk.ok(Y3, inst + ' -> ' + str(sorted(map(str, res))), locstr(f.node), site=inst)
                 elif any(r[1] is UNKNOWN or 'UNKNOWN' in str(r[1]) for r in res):
